@@ -93,6 +93,13 @@ CHECKS = {
             "default; date-times compared as instants) and the Meta key maps must be inverse bijections onto the spec's property names.",
             "Instance menus are finite (3 values per kind); each reference-valued container kind has its own target schema so that hook registration is not masked by another model of the same document.",
             "4 C03"),
+    "C14": ("exploration", "bounded exhaustive enumeration of ordered variant selections x discriminator modes x positions x every conforming payload; decode/encode with the package's own converter",
+            "Every ordered selection of 2..3 variants from a 9-variant menu (subset-related, overlapping and all-optional objects, string, integer, array, map), with and without "
+            "discriminator (explicit mapping / implicit), nullable and anyOf variants, in alias / field / list-item position, is generated; every conforming payload of every "
+            "variant (plus unmapped discriminator values and invalid payloads of a mapped variant) is decoded and re-encoded; no key or value of the payload may be lost, a "
+            "discriminator must select exactly the mapped class and errors must be reported instead of guessed.",
+            "Each discriminated union has its own variant schemas (the generator rewrites a variant's discriminator property per union). Unions of more than 3 (thorough 4) variants are outside the bound.",
+            "4 C14"),
 }
 
 NOT_YET = {}
